@@ -95,7 +95,8 @@ Inv_D_BinCount == pc = "inner" => /\ Len(pend) >= 1
                                   /\ LocalBin(gapStart, work[i][1], B) <= B
 Inv_D_OperatorForm == Done => out = TileOut(Variant, S, E, B, F, BL)
 (* the two helper lemmas depend on the arguments only: evaluated once per argument set *)
-Inv_D_Fill == pc = "prepare" => P_Fill(S, E, B, FillRange(S, E, B))
+Inv_D_Fill == pc = "prepare" => /\ P_Fill(S, E, B, FillRange(S, E, B))
+                                /\ FillRange(S, E, B) = FillFrom(S, E, B)     \* closed form = loop form
 (* merging keeps the covered points and leaves a sorted list without overlaps *)
 Inv_D_Merge == pc = "prepare" /\ F = NoFrag /\ B = (CHOOSE x \in BinSizes : TRUE) =>
                LET m == MergeRanges(BL) IN
